@@ -274,6 +274,17 @@ def K12():
     return witnesses_c18.K12()
 
 
+def K13():
+    """C09: a copy-mode block middleware leaves previous_block pointing at a private, untransformed copy of the first block"""
+    bp = _bp()
+    from bibtexparser.middlewares import RemoveEnclosingMiddleware
+    lib = bp.parse_string("@a{k,t={A}}\n@a{k,t={B}}\n", parse_stack=[RemoveEnclosingMiddleware(allow_inplace_modification=False)])
+    first, dup = lib.blocks[0], lib.blocks[1]
+    prev = dup.previous_block
+    ok = prev is first and prev is lib.entries_dict["k"]
+    return ok, "previous_block is the live first block: %r; its t = %r, the live block's t = %r" % (prev is first, prev["t"], first["t"])
+
+
 def K7():
     """C05: explicit comment ending in backslash + whitespace does not round-trip"""
     bp = _bp()
@@ -361,7 +372,7 @@ def F17():
     return not shared, "output metadata list is the input's / the middleware's own list: %r" % shared
 
 
-ALL = [F1, F2, F3, F4, F5, F6, F7, F8, F9, F10, F11, F12, F13, F14, F15, F16, F17, F18, K1, K2, K3, K4, K5, K6, K7, K8, K9, K10, K11, K12]
+ALL = [F1, F2, F3, F4, F5, F6, F7, F8, F9, F10, F11, F12, F13, F14, F15, F16, F17, F18, K1, K2, K3, K4, K5, K6, K7, K8, K9, K10, K11, K12, K13]
 
 if __name__ == "__main__":
     import bibtexparser
